@@ -254,7 +254,8 @@ pub fn rw_chain(r: &R, e: &Expr) -> Option<String> {
         _ => return None,
     };
     let mut term = mc.method.to_string();
-    let lazy = term == "map" && r.opts.has_rw("lazy_as_vec");
+    // (a bare `.iter()` fragment — the receiver of a fold — is materialised the same way: the sequence of its items)
+    let lazy = (term == "map" || term == "iter") && r.opts.has_rw("lazy_as_vec");
     if !TERMINALS.contains(&term.as_str()) && !lazy {
         return None;
     }
@@ -678,6 +679,29 @@ pub fn rw_option(r: &R, e: &Expr) -> Option<String> {
             let recv = r.expr(&mc.receiver);
             let d = r.expr(&mc.args[0]);
             Some(format!("(match {} {{ Ok(qx_v) => qx_v, Err(_) => {} }})", recv, d))
+        }
+        // R3b (rw=res_closure): the same for Result — map(f) / map(|x| b) / or_else(|e| b), std definitions
+        "map" if mc.args.len() == 1 && r.opts.has_rw("res_closure") && matches!(&mc.args[0], Expr::Path(_)) => {
+            r.note("R3b Result::map(path) -> match");
+            let recv = r.expr(&mc.receiver);
+            let f = r.expr(&mc.args[0]);
+            Some(format!("(match {} {{ Ok(qx_v) => Ok({}(qx_v)), Err(qx_e) => Err(qx_e) }})", recv, f))
+        }
+        "map" | "or_else" if mc.args.len() == 1 && r.opts.has_rw("res_closure") => {
+            let cl = closure_of(&mc.args[0])?;
+            guard_inline(r, cl);
+            if cl.inputs.len() != 1 {
+                return None;
+            }
+            r.note(format!("R3b Result::{} -> match", m));
+            let recv = r.expr(&mc.receiver);
+            let p = r.pat(&cl.inputs[0]);
+            let b = r.expr(&cl.body);
+            if m == "map" {
+                Some(format!("(match {} {{ Ok({}) => Ok({}), Err(qx_e) => Err(qx_e) }})", recv, p, b))
+            } else {
+                Some(format!("(match {} {{ Ok(qx_v) => Ok(qx_v), Err({}) => {} }})", recv, p, b))
+            }
         }
         "map" if mc.args.len() == 1 && r.opts.has_rw("opt_closure") && matches!(&mc.args[0], Expr::Path(_)) => {
             // Option::map(f) with a function path: Some(v) => Some(f(v))
